@@ -705,3 +705,36 @@ package measure
 //@   modifies metaReplacedAtomically
 //@   allow panic when true
 //@   ensures  returns-only-after-an-atomic-durable-replace: metaReplacedAtomically
+//
+//@ section C03
+//
+// blockWriter.mustWriteBlock: the part-wide time range kept in the writer (it becomes the part's metadata, which queries
+// use to prune whole parts) only ever widens: the maximum is overwritten only by a larger block maximum or when nothing
+// has been written to the part yet, the minimum likewise. (The per-primary-block range is re-seeded at every primary
+// block flush; the part-wide one must not be.) Thin contract.
+//@ func block.Len
+//@   assumed number of rows
+//@   pure
+//@ func generateBlockMetadata
+//@   assumed pooled metadata
+//@   ensures result != nil && fresh(result)
+//@ func releaseBlockMetadata
+//@   assumed pooled metadata
+//@ func block.mustWriteTo
+//@   assumed encodes the block's columns through the writers and fills bm (row count, sizes, time range)
+//@   modifies bm.timestamps.min
+//@   modifies bm.timestamps.max
+//@   modifies bm.count
+//@ func tagType.copyFrom
+//@   assumed copies the tag type table
+//@ func blockMetadata.marshal
+//@   assumed appends the metadata record
+//@   pure
+//@ func blockWriter.mustFlushPrimaryBlock
+//@   assumed writes one primary block and its index entry
+//@ func blockWriter.mustWriteBlock#part-range-only-widens
+//@   mode int
+//@   opt only-stated
+//@   requires bw != nil && b != nil
+//@   at-stmt "bw.totalMaxTimestamp = tm.max" requires raised-or-first: bw.totalCount == 0 || bm.timestamps.max > bw.totalMaxTimestamp
+//@   at-stmt "bw.totalMinTimestamp = tm.min" requires lowered-or-first: bw.totalCount == 0 || bm.timestamps.min < bw.totalMinTimestamp
